@@ -37,3 +37,12 @@ pub fn ingredient_names(db: &dyn Database) -> Vec<(u32, &'static str)> {
         .map(|ingredient| (ingredient.ingredient_index().as_u32(), ingredient.debug_name()))
         .collect()
 }
+
+/// Decompose a database key into (ingredient index, id index, id generation).
+pub fn key_parts(key: crate::DatabaseKeyIndex) -> (u32, u32, u32) {
+    (
+        key.ingredient_index().as_u32(),
+        key.key_index().index(),
+        key.key_index().generation(),
+    )
+}
